@@ -680,7 +680,23 @@ static void c06_enc_gen(Rng &rng, Plan &plan, bool thorough)
 	bool lz2 = plan.p("ch_lzma1", 0) == 0 && plan.p("ch_shape") <= 1;
 	bool sync_ok = (kind == EK_STREAM_ST || kind == EK_RAW) && lz2;
 	bool full_ok = kind == EK_STREAM_MT || kind == EK_STREAM_ST || kind == EK_EASY;
+	bool tiny = rng.chance(350);
+	if (tiny) {
+		// look-ahead territory: normal-mode parsing with nice_len below the longest match, low-entropy
+		// data with long repeats, input arriving a few bytes at a time
+		plan.setp("in_class", IN_LOWENT);
+		plan.setp("in_len", 20000 + (int64_t)rng.below(thorough ? 150000 : 50000));
+		static const int mfs[] = { LZMA_MF_HC4, LZMA_MF_BT2, LZMA_MF_BT3, LZMA_MF_BT4, LZMA_MF_BT4 };
+		plan.setp("ch_mf", mfs[rng.below(5)]);
+		plan.setp("ch_depth", 0);
+		plan.setp("ch_dict", 65536);
+		plan.setp("ch_mode", LZMA_MODE_NORMAL);
+		plan.setp("ch_nice", rng.range(8, 200));
+		if (rng.chance(500)) { plan.setp("ch_preset", 4 + (int64_t)rng.below(3)); plan.setp("preset", 4 + (int64_t)rng.below(3)); }
+		if (kind == EK_STREAM_MT) gen_mt_opts(rng, plan, (size_t)plan.p("in_len"));
+	}
 	gen_history(rng, plan, (size_t)plan.p("in_len"), sync_ok, full_ok, false);
+	if (tiny) for (auto &op : plan.ops) if (op.has("in_each")) op.set("in_each", rng.chance(300) ? 1 : 1 + (int64_t)rng.below(64));
 }
 
 static void c01_enc_gen(Rng &rng, Plan &plan, bool thorough)
